@@ -44,7 +44,7 @@ CASE_SCALE = {
     "C13": (1, 2, r"\.sweep$"),
     "C15": (3, 12, r"^(hmm|hmm\.matrix|hmm\.bw|hmm\.variants|mixture)$"),
     "C16": (3, 10, r"^(closed|numeric|em)\b"),
-    "C19": (4, 1, r"^(dense|sparse-keys|iterator-stress)$"),
+    "C19": (4, 1, r"^(dense|sparse-keys|iterator-stress|snapshot-iterators)$"),
     "C20": (1, 4, r"^no-return\.small-int$"),
 }
 
